@@ -29,12 +29,12 @@ def sh(cmd, **kw):
     return subprocess.run(cmd, stdout=subprocess.PIPE, stderr=subprocess.STDOUT, text=True, **kw)
 
 
-def do_import(pid, src):
+def do_import(pid, src, offset=0):
     src = Path(src)
     n = 0
     for d in sorted(src.glob("change*.diff")):
         k = "".join(c for c in d.stem if c.isdigit()) or "1"
-        out = ROOT / "seeded" / f"{pid}-{k}"
+        out = ROOT / "seeded" / f"{pid}-{int(k) + offset}"
         out.mkdir(parents=True, exist_ok=True)
         shutil.copy(d, out / "patch.diff")
         for cand in (src / f"demo_{k}.py", src / f"demo{k}.py"):
@@ -104,13 +104,26 @@ def do_eval(ids, tier_first="quick", suite=True):
 
 if __name__ == "__main__":
     ap = argparse.ArgumentParser()
-    ap.add_argument("cmd", choices=["import", "eval"])
+    ap.add_argument("cmd", choices=["import", "eval", "report"])
     ap.add_argument("args", nargs="*")
     ap.add_argument("--tier", default="quick")
     ap.add_argument("--no-suite", action="store_true")
+    ap.add_argument("--offset", type=int, default=0, help="import: add to the change number (round 2 -> --offset 2)")
     a = ap.parse_args()
-    if a.cmd == "import":
-        do_import(a.args[0].upper(), a.args[1])
+    if a.cmd == "report":
+        rows = ["# Independently written breaking changes (generated by tools/seeded.py report)", "",
+                "Each change was written by a fresh sub-agent that saw only the property text and a scratch worktree; it passes the repository's suite and comes with a demo that fails with it and passes without. `quick`/`thorough` = verdict of our check on a scratch clone with the change applied.", "",
+                "| id | property | what it breaks | needs to manifest | demo (unchanged/patched) | repo suite | quick | caught by | thorough |", "|---|---|---|---|---|---|---|---|---|"]
+        for d in sorted((ROOT / "seeded").iterdir()):
+            if not (d / "meta.json").exists():
+                continue
+            m = json.loads((d / "meta.json").read_text())
+            q = m.get("check_quick", {})
+            rows.append(f"| {d.name} | {m.get('property')} | {m.get('breaks','')} | {m.get('needs_to_manifest','')} | {m.get('demo_on_unchanged_tree','?')}/{m.get('demo_with_patch','?')} | {m.get('repo_suite_with_patch','?')[:22]} | {q.get('result','?')} ({q.get('wall_s','')}s) | {', '.join(q.get('subchecks', []))} | {m.get('check_thorough',{}).get('result','-')} |")
+        (ROOT / "seeded" / "RESULTS.md").write_text("\n".join(rows) + "\n")
+        print("\n".join(rows[-12:]))
+    elif a.cmd == "import":
+        do_import(a.args[0].upper(), a.args[1], a.offset)
     else:
         ids = a.args or sorted(p.name for p in (ROOT / "seeded").iterdir() if p.is_dir())
         do_eval(ids, a.tier, not a.no_suite)
